@@ -1326,12 +1326,16 @@ const STEP_PARAMS: &[(usize, &str)] = &[
 ];
 
 fn param_index(lang: Lang, name: &str) -> Option<usize> {
-    use uplc::machine::cost_model::ParamName;
-    let find = |list: &[ParamName]| list.iter().position(|p| format!("{p:?}") == name);
+    ledger_names(lang).iter().position(|p| *p == name)
+}
+
+/// The harness's own copy of the ledger's parameter order (see ledger_params.rs), not the
+/// evaluator's table.
+fn ledger_names(lang: Lang) -> &'static [&'static str] {
     match lang {
-        Lang::V1 => find(&ParamName::V1),
-        Lang::V2 => find(&ParamName::V2),
-        Lang::V3 => find(&ParamName::V3),
+        Lang::V1 => crate::ledger_params::V1,
+        Lang::V2 => crate::ledger_params::V2,
+        Lang::V3 => crate::ledger_params::V3,
     }
 }
 
@@ -1445,13 +1449,7 @@ fn builtins_of(term: &Term<NamedDeBruijn>) -> std::collections::BTreeSet<String>
 }
 
 fn param_names(lang: Lang) -> Vec<String> {
-    use uplc::machine::cost_model::ParamName;
-    let list: Vec<ParamName> = match lang {
-        Lang::V1 => ParamName::V1.to_vec(),
-        Lang::V2 => ParamName::V2.to_vec(),
-        Lang::V3 => ParamName::V3.to_vec(),
-    };
-    list.iter().map(|p| format!("{p:?}")).collect()
+    ledger_names(lang).iter().map(|p| p.to_string()).collect()
 }
 
 fn param_interference_probe(ctx: &mut RunCtx, prog: &Prog, src: Option<&str>, how_many: usize) {
@@ -1526,6 +1524,176 @@ fn param_interference_probe(ctx: &mut RunCtx, prog: &Prog, src: Option<&str>, ho
             );
         }
     }
+}
+
+
+// ------------------------------------------------------------------------------------------
+// Vector-position probe: "equal the ledger cost model" for the mapping from the ledger's ordered
+// parameter list to what each builtin is charged.
+//
+// One builtin call with multi-word arguments is evaluated under the ledger vector and again with
+// ONE position of the vector raised by δ. The harness's own copy of the ledger's order says what
+// that position means. For a position that belongs to the called builtin: a cpu parameter may move
+// only the cpu figure and a memory parameter only the memory figure; and if the parameter is the
+// additive term of its costing function (`…-intercept`, `…-constant`, `…-c0`, `…-c00`, a bare
+// constant cost) one call can pay it at most once, so the charge moves by 0 or exactly δ — while a
+// per-word coefficient fed into that position would move it by δ times the (multi-word) size.
+// A position that belongs to another builtin must not move the charge at all.
+
+const X4: &str = "1606938044258990275541962092341162602522202993782792835301376"; // 2^200: 4 words
+const X2: &str = "1267650600228229401496703205376"; // 2^100: 2 words
+const B32: &str = "000102030405060708090a0b0c0d0e0f101112131415161718191a1b1c1d1e1f";
+const B17: &str = "a0a1a2a3a4a5a6a7a8a9aaabacadaeaf10";
+
+fn position_families() -> Vec<(&'static str, String)> {
+    let i = |x: &str| format!("(con integer {x})");
+    let b = |x: &str| format!("(con bytestring #{x})");
+    let two = |f: &str, a: String, c: String| format!("[ [ (builtin {f}) {a} ] {c} ]");
+    let one = |f: &str, a: String| format!("[ (builtin {f}) {a} ]");
+    let three = |f: &str, a: String, c: String, d: String| format!("[ [ [ (builtin {f}) {a} ] {c} ] {d} ]");
+    let mut v: Vec<(&'static str, String)> = vec![];
+    for f in ["addInteger", "subtractInteger", "multiplyInteger", "divideInteger", "quotientInteger", "remainderInteger", "modInteger"] {
+        v.push((f, two(f, i(X4), i(X2))));
+    }
+    for f in ["divideInteger", "modInteger", "quotientInteger", "remainderInteger"] {
+        v.push((f, two(f, i(X2), i(X4))));
+    }
+    for f in ["equalsInteger", "lessThanInteger", "lessThanEqualsInteger"] {
+        v.push((f, two(f, i(X4), i(X4))));
+    }
+    v.push(("appendByteString", two("appendByteString", b(B32), b(B17))));
+    v.push(("consByteString", two("consByteString", i("1"), b(B32))));
+    v.push(("sliceByteString", three("sliceByteString", i("1"), i("20"), b(B32))));
+    v.push(("lengthOfByteString", one("lengthOfByteString", b(B32))));
+    v.push(("indexByteString", two("indexByteString", b(B32), i("3"))));
+    for f in ["equalsByteString", "lessThanByteString", "lessThanEqualsByteString"] {
+        v.push((f, two(f, b(B32), b(B32))));
+    }
+    for f in ["sha2_256", "sha3_256", "blake2b_256", "blake2b_224", "keccak_256", "ripemd_160", "complementByteString", "countSetBits", "findFirstSetBit", "bData", "decodeUtf8"] {
+        let arg = if f == "decodeUtf8" { b("6162636465666768696a6b6c6d6e6f707172737475767778") } else { b(B32) };
+        v.push((f, one(f, arg)));
+    }
+    let s24 = "(con string \"abcdefghijklmnopqrstuvwx\")".to_string();
+    v.push(("appendString", two("appendString", s24.clone(), s24.clone())));
+    v.push(("equalsString", two("equalsString", s24.clone(), s24.clone())));
+    v.push(("encodeUtf8", one("encodeUtf8", s24)));
+    v.push(("iData", one("iData", i(X4))));
+    v.push(("unIData", one("unIData", format!("(con data (I {X4}))"))));
+    v.push(("unBData", one("unBData", format!("(con data (B #{B32}))"))));
+    v.push(("equalsData", two("equalsData", format!("(con data (List [I {X4}, B #{B32}]))"), format!("(con data (List [I {X4}, B #{B32}]))"))));
+    v.push(("serialiseData", one("serialiseData", format!("(con data (List [I {X4}, B #{B32}]))"))));
+    v.push(("integerToByteString", three("integerToByteString", "(con bool False)".into(), i("0"), i(X4))));
+    v.push(("integerToByteString", three("integerToByteString", "(con bool True)".into(), i("40"), i(X2))));
+    v.push(("byteStringToInteger", two("byteStringToInteger", "(con bool False)".into(), b(B32))));
+    for f in ["andByteString", "orByteString", "xorByteString"] {
+        v.push((f, three(f, "(con bool False)".into(), b(B32), b(B17))));
+        v.push((f, three(f, "(con bool True)".into(), b(B17), b(B32))));
+    }
+    v.push(("readBit", two("readBit", b(B32), i("5"))));
+    v.push(("shiftByteString", two("shiftByteString", b(B32), i("3"))));
+    v.push(("rotateByteString", two("rotateByteString", b(B32), i("3"))));
+    v.push(("replicateByte", two("replicateByte", i("20"), i("7"))));
+    v.push(("writeBits", three("writeBits", b(B32), "(con (list integer) [1, 2, 3])".into(), "(con bool True)".into())));
+    v.push(("verifyEd25519Signature", three("verifyEd25519Signature", b(B32), b(B17), b(&B32.repeat(2)))));
+    v
+}
+
+fn owner_and_dim(name: &str) -> Option<(String, &'static str, String)> {
+    if let Some(p) = name.find("_cpu_arguments") {
+        return Some((norm(&name[..p]), "cpu", name[p + "_cpu_arguments".len()..].to_string()));
+    }
+    if let Some(p) = name.find("_memory_arguments") {
+        return Some((norm(&name[..p]), "mem", name[p + "_memory_arguments".len()..].to_string()));
+    }
+    None
+}
+
+fn is_additive_term(suffix: &str) -> bool {
+    matches!(
+        suffix,
+        "" | "_intercept" | "_constant" | "_c0" | "_c00" | "_coefficient00" | "_model_arguments_intercept" | "_model_arguments_c00"
+    )
+}
+
+const POSITION_RUNS_QUICK: u64 = 6;
+const POSITION_RUNS_THOROUGH: u64 = 18;
+
+fn position_probe_run(ctx: &mut RunCtx, j: u64) {
+    if let Err(e) = crate::ledger_params::self_check() {
+        ctx.harness_error(e);
+        return;
+    }
+    let lang = [Lang::V3, Lang::V2, Lang::V1][(j % 3) as usize];
+    let base: Vec<i64> = match lang {
+        Lang::V3 => corpus().v3_costs.clone(),
+        _ => corpus().v2_costs.clone(),
+    };
+    let names = ledger_names(lang);
+    let n = names.len().min(base.len());
+    let delta = 1000 + ctx.rng.range(1, 100_000);
+    let mut evaluated = 0u64;
+    for (f, body) in position_families() {
+        let src = format!("(program 1.1.0 {body})");
+        let Some(term) = parse_source(&src) else {
+            ctx.stats.inc("position_probe_templates_not_parsing", 1);
+            continue;
+        };
+        let Some((c0, _, ok)) = eval_with_vector(&term, lang, &base) else { continue };
+        if !ok {
+            ctx.stats.inc("position_probe_templates_not_evaluating", 1);
+            continue;
+        }
+        evaluated += 1;
+        let me = norm(f);
+        // every position of the called builtin, plus a seeded sample of foreign positions
+        let mut positions: Vec<usize> = (0..n).filter(|i| owner_and_dim(names[*i]).map(|(o, _, _)| o == me).unwrap_or(false)).collect();
+        ctx.stats.add("position_probe_own_positions", hash_str(&format!("{}|{f}|{}", lang.tag(), positions.len())));
+        for _ in 0..12 {
+            positions.push(ctx.rng.below(n as u64) as usize);
+        }
+        for i in positions {
+            let name = names[i];
+            let Some((owner, dim, suffix)) = owner_and_dim(name) else { continue };
+            let mut v = base.clone();
+            v[i] = v[i].saturating_add(delta);
+            let Some((c1, _, ok1)) = eval_with_vector(&term, lang, &v) else { continue };
+            ctx.stats.inc("evaluations", 1);
+            ctx.stats.inc("position_probes", 1);
+            let (d_cpu, d_mem) = (c1.0 - c0.0, c1.1 - c0.1);
+            let mine = owner == me;
+            let (own, other) = if dim == "cpu" { (d_cpu, d_mem) } else { (d_mem, d_cpu) };
+            let bad = if !ok1 {
+                Some("the call no longer evaluates".to_string())
+            } else if !mine && (d_cpu != 0 || d_mem != 0) {
+                Some(format!("position {i} of the ledger vector is {name}, a parameter of another builtin, yet the charge moves by cpu={d_cpu} mem={d_mem}"))
+            } else if mine && other != 0 {
+                Some(format!("position {i} of the ledger vector is {name}, a {dim} parameter, yet the other figure moves by {other}"))
+            } else if mine && is_additive_term(&suffix) && own != 0 && own != delta {
+                Some(format!("position {i} of the ledger vector is {name}, the additive term of the costing function: one call can pay it at most once, yet the {dim} figure moves by {own} (δ = {delta})"))
+            } else {
+                None
+            };
+            if mine && is_additive_term(&suffix) {
+                ctx.stats.inc("position_probe_additive_terms", 1);
+                if own == delta {
+                    ctx.stats.inc("position_probe_additive_terms_paid", 1);
+                }
+            }
+            if let Some(why) = bad {
+                ctx.violation(
+                    PROP,
+                    "vector-position",
+                    format!("vector-position|{name}|{}", lang.tag()),
+                    format!("{src} under the {} ledger vector, position {i} raised by {delta}: {why}", lang.tag()),
+                    json!({ "kind": "position-probe", "j": j, "lang": lang.tag(), "param": name, "index": i, "source": src }),
+                );
+            }
+        }
+    }
+    if evaluated < 20 {
+        ctx.harness_error(format!("vector-position probe: only {evaluated} builtin calls evaluated under {}", lang.tag()));
+    }
+    ctx.event(&format!("position-probe {} evaluated={evaluated}", lang.tag()));
 }
 
 const SIZE_PROBE_RUNS_QUICK: u64 = 16;
@@ -1628,8 +1796,8 @@ impl Engine for BudgetEngine {
     fn runs(&self, tier: Tier) -> u64 {
         let n = corpus().programs.len() as u64;
         match tier {
-            Tier::Quick => n + 400 + COMPILED_RUNS_QUICK + SIZE_PROBE_RUNS_QUICK,
-            Tier::Thorough => 3 * n + 6000 + COMPILED_RUNS_THOROUGH + SIZE_PROBE_RUNS_THOROUGH,
+            Tier::Quick => n + 400 + COMPILED_RUNS_QUICK + SIZE_PROBE_RUNS_QUICK + POSITION_RUNS_QUICK,
+            Tier::Thorough => 3 * n + 6000 + COMPILED_RUNS_THOROUGH + SIZE_PROBE_RUNS_THOROUGH + POSITION_RUNS_THOROUGH,
         }
     }
 
@@ -1644,6 +1812,14 @@ impl Engine for BudgetEngine {
                 Tier::Quick => COMPILED_RUNS_QUICK,
                 Tier::Thorough => COMPILED_RUNS_THOROUGH,
             };
+            let size_runs = match ctx.tier {
+                Tier::Quick => SIZE_PROBE_RUNS_QUICK,
+                Tier::Thorough => SIZE_PROBE_RUNS_THOROUGH,
+            };
+            if ctx.k >= base + compiled + size_runs {
+                position_probe_run(ctx, ctx.k - base - compiled - size_runs);
+                return;
+            }
             if ctx.k >= base + compiled {
                 size_probe_run(ctx, ctx.k - base - compiled);
                 return;
@@ -1751,6 +1927,10 @@ impl Engine for BudgetEngine {
                 Some(p) => param_interference_probe(ctx, &p, src, 400),
                 None => ctx.harness_error("replay: unknown program".into()),
             }
+            return;
+        }
+        if jstr(trace, "kind") == "position-probe" {
+            position_probe_run(ctx, ju64(trace, "j"));
             return;
         }
         if jstr(trace, "kind") == "step-price" {
